@@ -26,7 +26,7 @@ Definition ainit : acct := mkAcct 0 (fun _ => mkAS false 0 false false false fal
 
 Definition acan_create (k : acfg) (a : acct) : bool := (ac_max_req k =? 0) || (a_req a <? 0) || (a_req a <? ac_max_req k).
 (* Increase / Decrease always count (resource_manager.go since c8b45b4d7; pinned by Gen.PoolSrc poolres_src_counts_unlimited);
-   max_requests = 0 only means that CanCreate admits everything *)
+   max_requests = 0 only means that CanCreate accepts everything *)
 Definition areq_add (k : acfg) (a : acct) (d : Z) : acct := a <| a_req := a_req a + d |>.
 
 Inductive aop :=
